@@ -369,7 +369,29 @@ def r3_6(ctx):
                 ctx.ok("R3.6", where(fi), f"msg_keys[{idx}] and uids[{idx}] are removed together, no suspension point in between")
             else:
                 ctx.bad("R3.6", fi.module, fi.qual, f"del self.msg_keys[{idx}] ... del self.uids[{idx}]", "the two parallel lists are not shortened in one await-free step: while the task is suspended between the two deletions msg_keys and uids are misaligned, and a reader that runs then (POP3 RETR/TOP/LIST, a snapshot taken at login) gets the next message under this UID", pair["self.uids"].lineno)
-    ctx.floor("R3.6", n, 1, "paired removals from msg_keys / uids")
+    # ... and they grow in one await-free step as well: a shutdown (or any reader) that runs while one list has the new
+    # entries and the other has not persists / sees lists of different lengths - the restart "repairs" that by truncating
+    # the UID list from the front, which shifts every UID
+    for fi in p.funcs_in("mbox"):
+        grows = {}
+        for s_ in body_walk(fi.node):
+            if isinstance(s_, ast.Expr) and isinstance(s_.value, ast.Call) and call_name(s_.value) in ("extend", "append") and norm(call_recv(s_.value)) in ("self.msg_keys", "self.uids"):
+                grows.setdefault(norm(call_recv(s_.value)), []).append(s_)
+        if len(grows) < 2:
+            continue
+        ctx.analysed(fi)
+        g = ctx.cfg(fi)
+        a = [x for x in g.nodes_for(grows["self.msg_keys"][0]) if g.nodes[x].kind == "stmt"]
+        b = [x for x in g.nodes_for(grows["self.uids"][0]) if g.nodes[x].kind == "stmt"]
+        ctx.require(a and b, f"{fi.qual}: CFG nodes of the paired extensions not found")
+        first, second = (a[0], b[0]) if b[0] in flow.reach(g, [a[0]], flow.NORMAL) else (b[0], a[0])
+        quiet = flow.reach(g, [first], flow.NORMAL, avoid=lambda x: g.nodes[x].awaits and x != first)
+        n += 1
+        if second in quiet:
+            ctx.ok("R3.6", where(fi), "msg_keys and uids are extended together, no suspension point in between")
+        else:
+            ctx.bad("R3.6", fi.module, fi.qual, "self.uids.extend(...) ... await ... self.msg_keys.extend(...)", "the two parallel lists are not extended in one await-free step: a shutdown that lands in between commits lists of different lengths, and the restart's repair (drop UIDs from the front) gives every known message another UID", grows["self.msg_keys"][0].lineno)
+    ctx.floor("R3.6", n, 2, "paired removals from / extensions of msg_keys and uids")
 
 
 def run(ctx):
@@ -389,5 +411,7 @@ def run(ctx):
     ctx.do(c15.r15_3)
     from . import c16 as _c16
     ctx.do(_c16.r16_5)  # COPY/MOVE report the UID of the key they read, looked up while it is read
+    from . import c15 as _c15b
+    ctx.do(_c15b.r15_4)  # a UID set denotes the UIDs it names, nothing else
     for k, v in PAIR_EXEMPT.items():
         ctx.trust(f"frozen pairing exemption: {k} - {v}")
